@@ -699,6 +699,12 @@ pub async fn process_fully_buffered_changes(
     Ok(rows_impacted)
 }
 
+/// Verification hook: number of upcoming `process_multiple_changes` calls that
+/// fail before touching the database (fault injection for the harness).
+#[cfg(corro_verif)]
+pub static VERIF_FAIL_BATCHES: std::sync::atomic::AtomicUsize =
+    std::sync::atomic::AtomicUsize::new(0);
+
 #[tracing::instrument(skip(agent, bookie, changes), err)]
 pub async fn process_multiple_changes(
     agent: Agent,
@@ -707,6 +713,21 @@ pub async fn process_multiple_changes(
     tx_timeout: Duration,
 ) -> Result<(), ChangeError> {
     let start = Instant::now();
+    #[cfg(corro_verif)]
+    if VERIF_FAIL_BATCHES
+        .fetch_update(
+            std::sync::atomic::Ordering::SeqCst,
+            std::sync::atomic::Ordering::SeqCst,
+            |n| n.checked_sub(1),
+        )
+        .is_ok()
+    {
+        return Err(ChangeError::Rusqlite {
+            source: rusqlite::Error::InvalidQuery,
+            actor_id: None,
+            version: None,
+        });
+    }
     counter!("corro.agent.changes.processing.started").increment(changes.len() as u64);
     debug!(self_actor_id = %agent.actor_id(), "processing multiple changes, len: {}", changes.iter().map(|(change, _, _)| cmp::max(change.len(), 1)).sum::<usize>());
     trace!(self_actor_id = %agent.actor_id(), "changes: {changes:?}");
